@@ -257,6 +257,30 @@ def check(tier, seed):
             run.violation("introspection:disable-switch-leaves-ordinary-fields-alone", "with disable_introspection=True a request mixing ordinary fields and introspection "
                           "does not answer the ordinary fields (or answers the introspection ones): %s" % (b["result"].response() if b.get("result") else b.get("exc"),),
                           {"config": cfg, "query": mixed}, True)
+    # a schema that other schemas were DERIVED from in the meantime (extended - members added to every kind of type -, cloned, transformed) still reports itself:
+    # the answer of before and after are the same, and both pass the member-by-member comparison
+    from py_gql import graphql_blocking
+    from py_gql.schema.transforms import CamelCaseSchemaTransform, transform_schema
+    from py_gql.sdl import extend_schema
+    from py_gql.utilities import introspection_query
+    EXT = ("extend enum Role { ROOT } extend type User { extra: Int } extend interface Named { alias: String } extend union Pet = User "
+           "extend input Filter { more: Int = 1 } extend type Dog { alias: String } extend type Cat { alias: String } extend type User { alias: String } extend scalar Date @tag")
+    base = build_schema(schemas.BASE_SDL)
+    before = graphql_blocking(base, introspection_query()).response()
+    for label, op in (("extend_schema", lambda: extend_schema(base, EXT)), ("extend_schema (refused)", lambda: extend_schema(base, "extend enum Role { ROOT, ADMIN }")),
+                      ("clone", lambda: base.clone()), ("transform_schema", lambda: transform_schema(base, CamelCaseSchemaTransform()))):
+        try:
+            op()
+        except Exception:
+            pass            # (a refused extension is part of the history on purpose)
+        after = graphql_blocking(base, introspection_query()).response()
+        n += 1
+        if after != before:
+            diff = next((t for t in (after.get("data") or {}).get("__schema", {}).get("types", []) if t not in before["data"]["__schema"]["types"]), None)
+            run.violation("introspection:answer-is-a-function-of-the-schema", "after %s was applied to a schema (deriving another one), the schema's own introspection result changed: %s" % (
+                label, (diff or {}).get("name")), {"history": label, "changed_type": (diff or {}).get("name")}, True)
+            break
+    n += check_schema(run, base, "base-after-derivations")
     if n == 0:
         raise MachineryDefect("nothing introspected")
     run.cov["evaluations"] = n
